@@ -97,12 +97,14 @@ Fixpoint wfn (v : value) : bool :=
   | _ => true
   end.
 
-(* no NaN anywhere inside ("NaN aside") *)
+(* no NaN anywhere inside ("NaN aside") -- and no invalid value, which like NaN is not ==
+   to itself (it stands for an error, not for a value) *)
 Fixpoint nan_free (v : value) : bool :=
   let all := fix all (xs : list value) : bool :=
     match xs with [] => true | x :: r => nan_free x && all r end in
   match v with
   | VFloat b => negb (f_is_nan b)
+  | VInvalid _ => false
   | VSeq xs | VTuple xs | VIter _ xs => all xs
   | VMap kvs =>
       (fix allp (xs : list (value * value)) : bool :=
